@@ -303,8 +303,9 @@ def gen_instance(iid, rng, n, nu, nd, kind, *, uniform=False, pairs=True, spin_m
 
 
 # ----------------------------------------------------------------------------- TLC
-def cfg_text(design, invariants=INVARIANTS, extra=()):
+def cfg_text(design, invariants=INVARIANTS, extra=(), big=False):
     lines = ["SPECIFICATION Spec", f"CONSTANT Design = {'TRUE' if design else 'FALSE'}",
+             f"CONSTANT DesignBig = {'TRUE' if big else 'FALSE'}",
              f"CONSTANT Emit = {'FALSE' if design else 'TRUE'}", "CHECK_DEADLOCK FALSE"]
     lines += [f"INVARIANT {i}" for i in invariants]
     lines += [f"INVARIANT {i}" for i in extra]
